@@ -221,8 +221,9 @@ def check(ctx):
         if prop == "C18" and cl == "c18_spec" and e["rid"] in c05_runs:
             mine = False     # the accumulators differ from the spec because a yield was wrong, not because of a fault
         # a run that dies, or loses / corrupts the healthy results, while unrunnable entries are configured: C18
-        if prop == "C18" and cl in ("c05_total", "c06_total", "c05_missing_yield") and has_fault(ld["table"], ld["config"]):
-            mine = True
+        if prop == "C18" and has_fault(ld["table"], ld["config"]) and (
+                cl in ("c05_total", "c05_missing_yield") or cl.startswith("c06_")):
+            mine = True     # ... including the collected data / axis arrays of the healthy results
         if mine:
             owned.append((dict(e, _load=ld), cl))
         else:
